@@ -342,7 +342,9 @@ def r8(ctx):
     unguarded = []
     for u in uses:
         at = atom_texts(facts_at(u))
-        if not any(t.replace(" ", "") == "issubclass(%s,Atomic)" % dt and p for t, p in at):
+        # the test itself, or a flag computed from it once in the factory
+        flags = {norm(s_.targets[0]) for s_ in ast.walk(f) if isinstance(s_, ast.Assign) and len(s_.targets) == 1 and norm(s_.value).replace(" ", "") == "issubclass(%s,Atomic)" % dt}
+        if not any((t.replace(" ", "") == "issubclass(%s,Atomic)" % dt or t in flags) and p for t, p in at):
             unguarded.append(u)
     atomic = prog.cls("primitivedata", "Atomic")
     n = 0
@@ -362,3 +364,22 @@ def r8(ctx):
 def r9(ctx):
     from .c15 import write_existence_test
     write_existence_test(ctx)
+
+
+@rule("C17.R10", "a relinquished slot is emptied in place: no slot of a priority array is ever replaced by an object other slots (or other arrays) share, such as the array's prototype", floor=1, engines="E0 store sites")
+def r10(ctx):
+    prog = ctx.prog
+    m, f, k, meth = commando(ctx)
+    wp = meth["WriteProperty"]
+    n = 0
+    for st in walk_shallow(wp):
+        if isinstance(st, ast.Assign) and isinstance(st.targets[0], ast.Subscript):
+            base = norm(st.targets[0].value)
+            if "priority" in base.lower() or base.startswith("getattr(self, priorityArray"):
+                n += 1
+                v = st.value
+                fresh = isinstance(v, ast.Call) and isinstance(v.func, ast.Name) and v.func.id[:1].isupper()
+                ctx.check("_Commando.WriteProperty:slot-replaced[%s]#%d" % (norm(v)[:30], n), fresh and "prototype" not in norm(v), where(m, st),
+                          "the slot is replaced by %s, an object that is (or may be) shared: commanding one slot later changes the others" % norm(v))
+    nulls = [s_ for s_ in _slot_stores(wp)]
+    ctx.check("_Commando.WriteProperty:slots-changed-in-place", len(nulls) >= 4, where(m, wp), "slots are emptied and filled through their own PriorityValue (priority_value.null = .. / setattr(priority_value, choice, ..))")
